@@ -67,6 +67,17 @@ prop("C06", level="exploration",
      assumptions=["documented per-format mappings as transcribed in fdiff()", "strict structural compare"],
      stages=[dict(name="binrt", driver="c06_binroundtrip", flagset="asan", quick=250000, thorough=6000000)])
 
+prop("C07", level="exploration",
+     level_text="Recorded-log monitor with independent reference decoders written from RFC 8949, the MessagePack spec, UBJSON draft 12 and BSON 1.1 (vlib/ref, validated on RFC 8949 App. A/F vectors): inputs are emitted by the "
+                "reference ENCODERS in every legal spelling (non-minimal widths, definite/indefinite, chunked strings, typed/counted UBJSON containers), plus every strict prefix, byte/structural mutations (reserved length codes, "
+                "break codes, length +-1, invalid UTF-8) and the exhaustive 1-2 byte space (3 bytes sampled in thorough). Each input is decoded by the real library under ASan+UBSan; rule: well-formed JSON-like => accepted and "
+                "equal to the reference value (integers over -2^64..2^64-1, floats of every width, tags 0,1,2,3,21-23,32-34, unknown tags ignored); ill-formed => rejected; well-formed but not JSON-like => no value demand.",
+     level_note="Trailing bytes after the first item are not judged. Tags 4,5,24,25,256,40,1040,64-87 (typed arrays), MessagePack timestamps and BSON-specific scalar types carry no value demand here (jsoncons-specific renderings); duplicate keys excluded.",
+     technique="runtime monitoring: recorded decode log judged offline by independent reference decoders (differential oracle), ASan/UBSan on the decoding side",
+     rule="inputs per format = 65 792 exhaustive + reference encodings of generated values in random legal spellings + prefixes + mutations; distinct = distinct byte strings; all inputs are non-trivial (the empty input appears once as a prefix)",
+     assumptions=["reference codecs in vlib/ref (pure Python, written from the specifications)", "mapping reference value -> jsoncons data model in vlib/monitors/c07.py:expected_desc"],
+     stages=[dict(name="conformance", kind="python", module="c07", builds=[("x_bin", "asan")], values_quick=1200, values_thorough=60000)])
+
 prop("C09", level="exploration",
      level_text="History monitor: random operation sequences (construct, copy/move construct and assign, swap, insert_or_assign, try_emplace, operator[], push/emplace_back, insert, erase by key/"
                 "iterator/range, merge, merge_or_update (copy and move), resize, reserve, shrink_to_fit, clear, lookups; also applied to nested containers) over pools of 4 json and 4 ojson values are mirrored on an "
